@@ -107,6 +107,18 @@ impl IpDefragBuf {
             }
         }
 
+        // check that no already received section is located after the new end
+        if false == more_fragments {
+            if let Some(max_end) = self.sections.iter().map(|s| s.end).max() {
+                if max_end > end {
+                    return Err(ConflictingEnd {
+                        previous_end: max_end,
+                        conflicting_end: end,
+                    });
+                }
+            }
+        }
+
         // get enough memory to store the de-fragmented
         let required_len = usize::from(end);
         if self.data.len() < required_len {
